@@ -243,7 +243,15 @@ def run_object(ctx, cfg, peers):
     loop = new_loop()
     try:
         for peer, pos in peers:
-            r = loop.run_until_complete(ac.process_request("gemini://x/", peer, None))
+            try:
+                r = loop.run_until_complete(ac.process_request("gemini://x/", peer, None))
+            except Exception as e:  # noqa: BLE001
+                # the protocol answers "40 Middleware error" to whatever the component raises: neither an admission
+                # nor the 53 a refusal is owed
+                ctx.count("monitor", "decisions_object")
+                ctx.violation(f"decision-raised:{type(e).__name__}:via=object", f"deciding about peer {peer!r} raised {type(e).__name__}: {str(e)[:80]}",
+                              {"config": cfg, "peer": peer, "position": pos, "log_mode": os.environ.get("VF_LOG_MODE") or "quiet"})
+                continue
             admit = bool(r[0])
             status = None
             if not admit:
